@@ -5,7 +5,8 @@ from harness.loop_specs import C05, LoopSpec, mkjob
 
 MARKED = {"R1": [("c1", "x", 0), ("c2", "y", "dflt")],
           "R2": [("c1", "x", 0), ("c2", "x", 0), ("c2", "y", "dflt")],
-          "R3": [("c1", "x", 0), ("c2", "y", "dflt")]}
+          "R3": [("c1", "x", 0), ("c2", "y", "dflt")],
+          "R5": [("c1", "x", 0), ("c2", "x", 0), ("c1", "y", "dflt"), ("c2", "y", "dflt")]}
 PLAIN = [("c1", "plain", "init"), ("c2", "plain", "init")]
 WRITERS = ["robot.teleopPeriodic", "auto.on_iteration", "c1.execute", "c2.execute"]
 WOPTS = [(), ("mode",), ("c1",), ("c2",), ("mode", "c2"), ("c1", "c2")]
@@ -58,7 +59,14 @@ def run(c, job):
                   "auto.on_iteration", "c1.execute", "c2.execute", "c3.execute", "c1.fb_probe", "c2.fb_probe"]:
             h.hooks[s] = hook
 
-    H = lcm.run_robot(c, job, dict(pre_start=pre_start, feedbacks=add_feedbacks))
+    def twin_fb(H_, cls, feedback):
+        def get_probe(self):
+            H_.callback(f"{self.NAME}.fb_probe", self.NAME)
+            return 0
+
+        cls.get_probe = feedback(get_probe)
+
+    H = lcm.run_robot(c, job, dict(pre_start=pre_start, feedbacks=add_feedbacks, twin_feedbacks=twin_fb))
     return H, attrs
 
 
@@ -94,10 +102,10 @@ class C10(LoopSpec):
 
     def jobs(self, tier):
         if tier == "quick":
-            return [mkjob("R1", 3, True, fms=True), mkjob("R2", 3, True, fms=True, use_teleop_in_autonomous=True),
+            return [mkjob("R1", 3, True, fms=True), mkjob("R2", 3, True, fms=True, use_teleop_in_autonomous=True), mkjob("R5", 3, False, fms=True),
                     mkjob("R1", 3, True, fms=True, faults=1, fault_patterns=["always"],
                           fault_sites=["robot.teleopPeriodic", "c1.execute", "c2.execute", "robot.robotPeriodic", "auto.on_iteration"])]
-        return [mkjob("R1", 4, True, fms=True), mkjob("R2", 4, True, fms=True), mkjob("R3", 4, True, fms=True),
+        return [mkjob("R1", 4, True, fms=True), mkjob("R2", 4, True, fms=True), mkjob("R3", 4, True, fms=True), mkjob("R5", 4, True, fms=True),
                 mkjob("R2", 3, True, fms=True, faults=2, fault_patterns=["always", "first"],
                       fault_sites=["robot.teleopPeriodic", "c1.execute", "c2.execute", "robot.robotPeriodic", "auto.on_iteration", "c1.fb_probe"])]
 
